@@ -22,11 +22,12 @@ Changes(r) == r \in {"add", "delete", "set", "set-torrent"}
 
 \* which hostile sources a successfully rendered page shows
 Sources == {"name", "dir-component", "file-component", "tracker-url", "tracker-error", "webseed-url", "known-version", "peer-id-code", "single-name",
-            "magnet-name"}      \* the dn= of a magnet link whose metadata has not arrived: the torrent is listed under it
+            "magnet-name",      \* the dn= of a magnet link whose metadata has not arrived: the torrent is listed under it
+            "tracker-peer-zone"} \* the IPv6 zone of a peer address in a tracker's reply (dictionary format): any text
 Shown(r) == CASE r = "root"        -> {"name", "dir-component", "file-component"}
               [] r = "torrent-dir" -> {"name", "dir-component", "file-component"}
               [] r = "subdir"      -> {"name", "dir-component", "file-component"}
-              [] r = "peers"       -> {"name", "tracker-url", "tracker-error", "webseed-url", "known-version", "peer-id-code"}
+              [] r = "peers"       -> {"name", "tracker-url", "tracker-error", "webseed-url", "known-version", "peer-id-code", "tracker-peer-zone"}
               [] r = "single-dir"  -> {"single-name"}
               [] OTHER             -> {}
 
@@ -41,5 +42,5 @@ Expect == IF Foreign(h) \/ h = "empty" THEN "refused" ELSE IF Local(h) THEN "ser
 RefusedIsInert == Expect = "refused" => TRUE
 \* routes that produce a playlist, and the number of files it lists: exactly 1 + 2n lines, whatever the names contain
 Playlist(rt) == rt \in {"playlist", "subdir", "single-playlist", "single-dirplaylist"}
-PlaylistFiles(rt) == CASE rt = "playlist" -> 3 [] rt = "subdir" -> 2 [] OTHER -> 1
+PlaylistFiles(rt) == CASE rt = "playlist" -> 5 [] rt = "subdir" -> 2 [] OTHER -> 1
 =============================================================================
